@@ -1482,7 +1482,7 @@ impl TypeChecker {
                     Type::Function(b_args, b_ret, b_purity),
                 ) => {
                     // TODO: Make sure there is one place this is checked.
-                    match (a_purity, b_purity) {
+                    match (&a_purity, &b_purity) {
                             (Purity::Undefined, _) |
                             (_, Purity::Undefined) |
                             (Purity::Pure, Purity::Pure) |
@@ -1494,6 +1494,14 @@ impl TypeChecker {
                                 "Cannot use impure function implementations for pure function declarations"
                             ),
                         }
+                    // An undefined purity takes the purity of the function it is unified
+                    // with - otherwise it depends on the union which purity survives.
+                    let purity = match (&a_purity, &b_purity) {
+                        (Purity::Undefined, purity) | (purity, _) => purity.clone(),
+                    };
+                    self.find_node_mut(a).ty =
+                        Type::Function(a_args.clone(), a_ret, purity.clone());
+                    self.find_node_mut(b).ty = Type::Function(b_args.clone(), b_ret, purity);
                     if a_args.len() != b_args.len() {
                         return err_type_error!(
                             self,
